@@ -330,7 +330,7 @@ def run_property(prop, tier, seed, jobs=None, only=None, budget=None, grid=None,
         if picked:
             ctx = mp.get_context("fork")
             with ctx.Pool(1) as pool:
-                carry_execs, carry_bad = pool.apply(carry_over_check, ((picked, 6 if tier == "quick" else 20),))
+                carry_execs, carry_bad = pool.apply(carry_over_check, ((picked, 60 if tier == "quick" else 300),))
     wall = time.time() - t0
     errors = [r for r in results.values() if "error" in r]
     known = [k for k in load_known() if k["property"] == prop]
@@ -471,7 +471,7 @@ def run_replay(path):
         cells = mod.cells("quick")
         if prop in CROSS_PROPS:
             cells += core_cells(prop, getattr(mod, "MON", [prop]))
-        n, bad = carry_over_check((_carry_cells(cells), 6))
+        n, bad = carry_over_check((_carry_cells(cells), 60))
         print(f"carry-over check: {n} executions, {len(bad)} scenario(s) behave differently after earlier pools lived in the process")
         for b in bad:
             print("  ", json.dumps(b)[:400])
